@@ -203,6 +203,17 @@ ExportOK ==
 
 TrExport == IsEvent("ShExport") /\ ExportOK = TRUE /\ UNCHANGED sh
 
+\* C09 on an exported shard: its lookup tables answer for exactly the records of the source
+TrExportLookup ==
+  /\ IsEvent("ShExportLookup") /\ R.src \in DOMAIN sh
+  /\ LET s == sh[R.src]
+         D == IF R.kind = "file" THEN DOMAIN s.files ELSE DOMAIN s.xorbs IN
+     CASE R.res = "hit" -> /\ R.h \in D
+                           /\ R.kind = "file" => (R.rec.h = R.h /\ RecEq(s.files[R.h], R.rec, FALSE))
+       [] R.res = "none" -> R.h \notin D
+       [] OTHER -> FALSE
+  /\ UNCHANGED sh
+
 TrDedupPair ==
   /\ IsEvent("ShDedupPair") /\ R.orig \in DOMAIN sh
   /\ R.ans_orig.found = R.ans_keyed.found
@@ -235,7 +246,7 @@ TrExpiry == IsEvent("ShExpiry") /\ ExpiryOK = TRUE /\ UNCHANGED sh
 TrKeyedTimes == IsEvent("ShKeyedTimes") /\ R.creation = R.creation_set /\ R.expiry = R.creation + R.valid /\ UNCHANGED sh
 
 TraceNext == \/ TrReset \/ TrBuild \/ TrLookup \/ TrScan \/ TrSizes \/ TrSearch \/ TrDedup \/ TrSetOp \/ TrConsolidate
-             \/ TrExport \/ TrDedupPair \/ TrKeyedFile \/ TrExpiry \/ TrKeyedTimes \/ TrMgrLookup \/ TrMgrEnd
+             \/ TrExport \/ TrDedupPair \/ TrKeyedFile \/ TrExpiry \/ TrKeyedTimes \/ TrMgrLookup \/ TrMgrEnd \/ TrExportLookup
 TraceSpec == TraceInit /\ [][TraceNext]_vars
 
 TraceAccepted ==
